@@ -1,6 +1,6 @@
 """C12 — Bitset: word/bit decomposition agreement, point-operation table, operator agreement over
 all words, count/format/equality coverage.  DESIGN.md §4 C12."""
-from .. import util
+from .. import util, zones
 from ..absint import tstr, mk_int, subterms
 from ..core import Anchor
 
@@ -965,6 +965,13 @@ def check(col, prog, tier, profile, fixture=None):
         r = util.ret_term(st)
         x = ("param", 1, I.names.get(1))
         ok = r[0] == "agg" and r[2][0][0] == "upd" and r[2][0][1][0] == "repeat" and r[2][0][1][1] == mk_int(0) and r[2][0][2] == mk_int(0) and r[2][0][3] == x
+        if not ok and r[0] == "agg" and r[2][0][0] == "repeat" and r[2][0][1] == mk_int(0):
+            # the untouched zero array on a path whose facts say the capacity is zero words (`if N > 0 { data[0] = x }`)
+            gn = [s_ for f_ in st.facts for s_ in subterms(f_[1]) if isinstance(s_, tuple) and s_ and s_[0] == "gparam"]
+            z_ = zones.zone_of(st.facts, I.tys)
+            if gn and any(z_.entails("Lt", g_, mk_int(1)) or z_.entails("Lt", ("bin", "Mul", g_, mk_int(64)), mk_int(64)) or z_.entails("Lt", ("bin", "Mul", g_, mk_int(64)), mk_int(1)) for g_ in gn):
+                col.ok("K4" + sfx, b.loc(), "%s|word0|no-words" % fk(b), "N == 0: there is no word to hold x", nontrivial=False)
+                continue
         if ok:
             col.ok("K4" + sfx, b.loc(), "%s|word0" % fk(b), "[0; N] with data[0] = x")
         else:
